@@ -53,6 +53,9 @@ def c10_specs(ctx):
                     a['action'] = rnd.choice(ACTIONS)
         if rnd.random() < 0.15:
             sp['epilogue'] = None
+        elif rnd.random() < 0.2:
+            # the section mark inside the epilogue: only the second %% of the file ends the rules
+            sp['epilogue'] = (sp['epilogue'] or '') + '\n// 100%% sure\nvar pct = "%d%%\\n"\n/* %% */\n'
         if rnd.random() < 0.3:
             sp['prologue'] = '\npackage main\n// %token FAKE in the prologue { \n/* %% */\nimport "fmt"\n'
         if rnd.random() < 0.3:
@@ -227,6 +230,44 @@ def emitted(text):
     return consts, cases
 
 
+def translate_probes(ctx):
+    """The compiled translate() of every variant (Go default, -u, -o, -o -u, TypeScript) of the generated-parser corpus, called on
+    every integer from -6 to four past the largest token code: exactly the token codes map to their own symbols, -1 to the end marker,
+    everything else to 0 (the error column)."""
+    import props
+    out = props.i6_shared(ctx)
+    n = bad = 0
+    for gname, byv in sorted(out['res'].items()):
+        if gname.startswith('__'):
+            continue
+        d = out['dumps'].get(gname)
+        if not d or not d.get('ok'):
+            continue
+        want = {s['value']: s['id'] for s in d['symbols'] if not s['nt'] and s['id'] >= 1}
+        lo = -6
+        hi = max([v for v in want] + [0]) + 4
+        want = {c: i for c, i in want.items() if lo <= c <= hi}
+        for vn, rs in sorted(byv.items()):
+            raw = rs.get(('xlate', '-6'))
+            if raw is None or raw == '?':
+                continue
+            n += 1
+            ctx.evaluations += 1
+            try:
+                got = {int(a): int(b) for a, b in (x.split('=') for x in raw.split())}
+            except ValueError:
+                got = {'unreadable': raw[:80]}
+            if got != want:
+                bad += 1
+                if bad <= 3:
+                    extra = sorted((c, got[c]) for c in got if want.get(c) != got[c])[:5]
+                    miss = sorted((c, want[c]) for c in want if c not in got)[:5]
+                    ctx.violation('counterexample', 'grammar %s variant %s: translate() maps %s, the codes of the terminals are %s (wrong or extra: %s, missing: %s)'
+                                  % (gname, vn, sorted(got.items())[:8], sorted(want.items())[:8], extra, miss),
+                                  props.case_of(out, gname, variant=vn, observed=sorted(got.items()), expected=sorted(want.items())), interface='I7')
+    return dict(variants_probed=n, differing=bad)
+
+
 def run_C11(ctx):
     bindir = vlib.build_impl()
     yaccgo = os.path.join(bindir, 'yaccgo')
@@ -310,6 +351,7 @@ def run_C11(ctx):
                 ctx.violation('counterexample', 'declaration mix %s: the implementation\'s token codes fail the verified checker valid_codes' % name, case, interface='I1c')
             elif v != 'bad' and pybad:
                 ctx.violation('no-failing-input-found', 'declaration mix %s: python mirror and verified checker disagree (%s)' % (name, v), case, interface='I1c')
+        ctx.extra['translate_probes'] = translate_probes(ctx)
         ctx.extra['verified_checker_runs'] = len(vc_jobs)
         ctx.extra['specs'] = len(specs)
     finally:
